@@ -45,7 +45,9 @@ class Roles:
         for f in F.fns:
             if f["kind"] == "Closure" or "inputs" not in f:
                 continue
-            self._roles[f["id"]] = self._classify(f)
+            # crate-private helpers have no contract of their own: they are judged inlined into the reachable functions that
+            # call them (extracting or inlining a helper must not change any verdict)
+            self._roles[f["id"]] = self._classify(f) if f.get("reachable") else {"HELPER"}
 
     def _closure(self, seed):
         s = set(seed)
